@@ -29,7 +29,7 @@ from qmi.core.pubsub import SignalManager, QMI_SignalReceiver
 from qmi.core.instrument import QMI_Instrument
 from qmi.core.task import QMI_Task, QMI_TaskRunner
 from qmi.core.udp_responder_packets import unpack_qmi_udp_packet, QMI_UdpResponderContextInfoRequestPacket, \
-                                           QMI_UdpResponderContextInfoResponsePacket
+                                           QMI_UdpResponderContextInfoResponsePacket, QMI_UdpResponderContextDescriptor
 from qmi.core.util import is_valid_object_name, format_address_and_port, AtomicCounter
 
 
@@ -278,6 +278,13 @@ class QMI_Context:
 
         # Determine workgroup name from configuration.
         self._workgroup_name = self._config.workgroup
+
+        # The workgroup name is reported to peers in a fixed-size, NUL-terminated field of the UDP responder packets.
+        # A name that does not fit there would make this context unable to answer discovery requests.
+        encoded_workgroup_name = self._workgroup_name.encode()
+        if (len(encoded_workgroup_name) > QMI_UdpResponderContextDescriptor.workgroup_name.size
+                or b"\0" in encoded_workgroup_name):
+            raise QMI_UsageException("Invalid workgroup name {!r}".format(self._workgroup_name))
 
         # Create message router.
         self._message_router = MessageRouter(self.name, self._workgroup_name)
